@@ -41,6 +41,12 @@ class FlattenComponentsIFilter(BaseIFilter):
         if not any(_haveNestedComponents(g, defaultGlyphSet) for g in glyphs):
             return flattened
 
+        # a nested composite may be defined at more locations (sparse masters) than
+        # the glyph that refers to it: once flattened, the glyph no longer refers to
+        # it, so it must exist wherever the nested composite does
+        if any(_haveNestedComposites(g, defaultGlyphSet) for g in glyphs):
+            self.ensureCompositeDefinedAtComponentLocations(glyphName)
+
         for glyphSet, interpolatedLayer in zip_strict(
             self.context.glyphSets, self.getInterpolatedLayers()
         ):
@@ -60,6 +66,16 @@ def _isSimpleOrMixed(glyph):
 def _haveNestedComponents(glyph, glyphSet):
     return not _isSimpleOrMixed(glyph) and any(
         glyphSet[compo.baseGlyph].components
+        for compo in glyph.components
+        if compo.baseGlyph in glyphSet
+    )
+
+
+def _haveNestedComposites(glyph, glyphSet):
+    # only component-only glyphs are flattened away; a base glyph with contours of
+    # its own stays a component (and gets decomposed later)
+    return not _isSimpleOrMixed(glyph) and any(
+        not _isSimpleOrMixed(glyphSet[compo.baseGlyph])
         for compo in glyph.components
         if compo.baseGlyph in glyphSet
     )
